@@ -13,9 +13,9 @@ from harness import core, tlc
 from props import misc_c35 as pc
 
 QUICK = dict(Forms={"periodic", "interval", "timer"}, Periods={1, 2, 3}, Starts={0, 2}, Firsts={0, 1, 3}, Durs={0, 1, 2},
-             Over={0, 1}, NoneAts={0, 2}, Horizon=8, MaxK=4)
+             Over={0, 1}, NoneAts={0, 2}, LateFirsts={1, 3}, Horizon=8, MaxK=4)
 THOROUGH = dict(Forms={"periodic", "interval", "timer"}, Periods={1, 2, 3, 5}, Starts={0, 1, 3}, Firsts={0, 1, 2, 4}, Durs={0, 1, 2},
-                Over={0, 1, 3}, NoneAts={0, 1, 3}, Horizon=11, MaxK=5)
+                Over={0, 1, 3}, NoneAts={0, 1, 3}, LateFirsts={1, 2, 5, 7}, Horizon=11, MaxK=5)
 
 
 def variants(scn):
@@ -43,6 +43,10 @@ def variants(scn):
     else:
         for i, k in enumerate(pc.VT_KINDS):
             for o in orders:
+                if scn.get("late"):   # first due time in the past: as a negative relative time and as a past absolute datetime
+                    for ab in (False, True):
+                        out.append((k, dict(order=o, sched_arg="factory" if (h + i) % 2 else "subscribe", abs_due=ab)))
+                    continue
                 out.append((k, dict(order=o, sched_arg="factory" if (h + i) % 2 else "subscribe",
                                     abs_due=scn["form"] == "timer" and (h + i) % 3 == 0)))
     return out
@@ -91,6 +95,8 @@ def run(tier: str) -> int:
         "action_takes_time": sum(1 for g in groups if any(g[0]["dur"])),
         "runs_to_horizon": sum(1 for g in groups if g[0]["stop"]["kind"] == "none"),
         "overrun": sum(1 for g in groups if g[0]["over"]),
+        "timer_first_due_a_period_or_more_in_the_past": sum(1 for g in groups if g[0]["late"] and -g[0]["first"] >= g[0]["p"]),
+        "timer_first_due_less_than_a_period_in_the_past": sum(1 for g in groups if g[0]["late"] and -g[0]["first"] < g[0]["p"]),
         "action_returns_none_then_called_again": sum(1 for g in groups if g[0]["noneAt"] and any(
             len(o["ticks"]) >= g[0]["noneAt"] + 2 for o in g[1])),
         "overrun_dispose_during_call": sum(1 for g in groups if g[0]["over"] and g[0]["stop"]["kind"] == "dispose" and any(
